@@ -590,6 +590,96 @@ Definition sched_matches (v : variant) (auto_app : bool) (evs : list (list event
   | None => false
   end.
 
+(* ------------------------------ schedules with unresolved internal choices *)
+(* The properties do not decide every internal step.  Three choices are left
+   open by them and are resolved by the Go runtime or by an implementation
+   detail; the tie must accept each resolution:
+     R1  a Submit whose select finds both its response and a closed context
+         (its own or the connection's) ready may leave through either case;
+     R2  a call that is about to hand its frame to the transport while another
+         caller's transport Write is still open may do so at once or later
+         (a write lock around Send is allowed);
+     R3  Watch handing a PDU to a receiving application after Done() closed
+         may complete the hand-over or give it up.
+   [settle_nd] runs the internal events like [settle] but returns every
+   quiescent state these choices lead to, each with the trace taken; the
+   snapshot the harness took after the forced group selects among them.  It
+   only ever calls [step]: every candidate is an ordinary run of the LTS
+   (Proofs/ConnSched.v, [sched_nd_sound]). *)
+Definition racing (s : state) (c : nat) : bool :=
+  match c_pc (callers s c), c_mail (callers s c) with
+  | PWaiting, Some _ => done s || c_ctx (callers s c)
+  | _, _ => false
+  end.
+Definition write_open (s : state) (c : nat) : bool :=
+  existsb (fun d => negb (Nat.eqb d c) && match c_pc (callers s d) with PWriting => true | _ => false end) (started s).
+
+Definition internal_events_skip (auto_app : bool) (skip : list nat) (s : state) : list event :=
+  [WatchLoop; WatchStep] ++ (if auto_app then [AppRecv] else [WatchSeeDone]) ++
+  flat_map (fun c => (if existsb (Nat.eqb c) skip then [] else [WireWrite c]) ++
+                     [Register c; SendFail c; WakeResp c; WakeDone c; WakeCtx c; Unregister c; CloseFinish c]) (started s)
+  ++ [KaNext; KaSeeDone].
+
+Definition cand := (state * list event)%type.
+
+Definition alt_step (v : variant) (s : state) (tr : list event) (evs : list event) : list cand :=
+  match first_enabled v s evs with Some (e, s') => [(s', tr ++ [e])] | None => [] end.
+
+Fixpoint settle_nd (v : variant) (auto_app : bool) (fuel : nat) (skip : list nat) (p : cand) : list cand :=
+  match fuel with
+  | O => []
+  | S f =>
+    let '(s, tr) := p in
+    match first_enabled v s (internal_events_skip auto_app skip s) with
+    | None => [p]
+    | Some (e, s') =>
+      settle_nd v auto_app f skip (s', tr ++ [e]) ++
+      match e with
+      | WakeResp c =>
+        if racing s c then flat_map (settle_nd v auto_app f skip) (alt_step v s tr [WakeDone c; WakeCtx c]) else []
+      | WireWrite c =>
+        if write_open s c then settle_nd v auto_app f (c :: skip) p else []
+      | AppRecv =>
+        if done s then flat_map (settle_nd v auto_app f skip) (alt_step v s tr [WatchSeeDone]) else []
+      | _ => []
+      end
+    end
+  end.
+
+Fixpoint run_group_nd (v : variant) (auto_app : bool) (evs : list event) (p : cand) : list cand :=
+  match evs with
+  | [] => settle_nd v auto_app settle_fuel [] p
+  | e :: r =>
+    match step v (fst p) e with
+    | Some s1 => run_group_nd v auto_app r (s1, snd p ++ [e])
+    | None =>
+      flat_map (fun p2 => match step v (fst p2) e with
+                          | Some s3 => run_group_nd v auto_app r (s3, snd p2 ++ [e])
+                          | None => []
+                          end) (settle_nd v auto_app settle_fuel [] p)
+    end
+  end.
+
+(* candidates that showed every snapshot the harness took *)
+Fixpoint run_sched_nd (v : variant) (auto_app : bool) (gs : list (list event)) (snaps : list snap) (cs : list cand) : list cand :=
+  match gs, snaps with
+  | [], [] => cs
+  | g :: gr, sn :: sr =>
+    run_sched_nd v auto_app gr sr
+      (filter (fun p => beq_snap (snapshot (fst p)) sn) (flat_map (run_group_nd v auto_app g) cs))
+  | _, _ => []
+  end.
+
+(* the run of the model that shows the snapshots and the final observation, if there is one *)
+Definition sched_nd (v : variant) (auto_app : bool) (gs : list (list event)) (snaps : list snap) (final : obs) : option cand :=
+  find (fun p => beq_obs (observe (fst p)) final)
+       (run_sched_nd v auto_app gs snaps (settle_nd v auto_app settle_fuel [] (init, []))).
+
+(* the generated cases: what the implementation showed after every forced event
+   and at the end is what ONE of the runs the model admits for these forced events shows *)
+Definition sched_admits (v : variant) (auto_app : bool) (evs : list (list event)) (snaps : list snap) (final : obs) : bool :=
+  match sched_nd v auto_app evs snaps final with Some _ => true | None => false end.
+
 (* ------------------------------------------- the peer and callers of C05 *)
 (* Executable form of the hypotheses of C05 on the next event (see env_ok in
    Proofs/ConnC05.v, which this implies on reachable states): Submit callers
@@ -621,5 +711,11 @@ Fixpoint erunb (v : variant) (s : state) (t : list event) : option state :=
 Definition sched_env_ok (v : variant) (auto_app : bool) (gs : list (list event)) : bool :=
   match sched v auto_app gs with
   | Some (_, _, tr) => match erunb v init tr with Some _ => true | None => false end
+  | None => false
+  end.
+(* the same for the run [sched_nd] selects *)
+Definition sched_env_admits (v : variant) (auto_app : bool) (gs : list (list event)) (snaps : list snap) (final : obs) : bool :=
+  match sched_nd v auto_app gs snaps final with
+  | Some (_, tr) => match erunb v init tr with Some _ => true | None => false end
   | None => false
   end.
